@@ -1,3 +1,4 @@
 ; requires: strings
 ; separator-free strings (concrete string mode only)
 (define-fun slashfree ((s Str)) Bool (not (str.contains s "/")))
+(define-fun dotfree ((s Str)) Bool (not (str.contains s ".")))
